@@ -40,26 +40,37 @@ func (s *AggregateSet) Merge(query *Query, set *AggregateSet) error {
 	//dlog.Common.Trace("Merge", set)
 	for _, sc := range query.Select {
 		storage := sc.FieldStorage
+		// Only merge what the other set actually has a value for. A set which never
+		// saw the field must not contribute Go's zero value (e.g. 0 as a minimum).
+		fValue, hasF := set.FValues[storage]
+		sValue, hasS := set.SValues[storage]
+
 		switch sc.Operation {
 		case Count:
 			fallthrough
 		case Sum:
 			fallthrough
 		case Avg:
-			value := set.FValues[storage]
-			s.addFloat(storage, value)
+			if hasF {
+				s.addFloat(storage, fValue)
+			}
 		case Min:
-			value := set.FValues[storage]
-			s.addFloatMin(storage, value)
+			if hasF {
+				s.addFloatMin(storage, fValue)
+			}
 		case Max:
-			value := set.FValues[storage]
-			s.addFloatMax(storage, value)
+			if hasF {
+				s.addFloatMax(storage, fValue)
+			}
 		case Last:
-			value := set.SValues[storage]
-			s.setString(storage, value)
+			if hasS {
+				s.setString(storage, sValue)
+			}
 		case Len:
-			s.setString(storage, set.SValues[storage])
-			s.setFloat(storage, set.FValues[storage])
+			if hasS && hasF {
+				s.setString(storage, sValue)
+				s.setFloat(storage, fValue)
+			}
 		default:
 			return fmt.Errorf("Unknown aggregation method '%v'", sc.Operation)
 		}
